@@ -46,6 +46,7 @@ Ents == [
   inner  |-> E("s_pub", "public", TRUE, "proc"),         \* internal procedure of s_pub
   g_pub  |-> E("m", "public", TRUE, "interface"),
   ai_prv |-> E("m", "private", TRUE, "absint"),
+  mpi    |-> E("m", "public", TRUE, "interface"),        \* interface of the separate module procedure mp, declared in m
   sm     |-> E("file", "public", TRUE, "submodule"),
   mp     |-> E("sm", "private", TRUE, "proc"),           \* separate module procedure implemented in the submodule
   mplv   |-> E("mp", "private", TRUE, "var")]            \* its local variable
